@@ -83,6 +83,100 @@ def judge(job):
     return out
 
 
+# ----------------------------------------------------------------------------- attribute uses
+def attr_restriction_xsd(rec, variant=0):
+    from checks import c03
+
+    def body(d0, dT, w):
+        wild = "" if w["c"] == "none" else \
+            f'<xs:anyAttribute namespace="{c03.WC[w["c"]]}" processContents="{w["pc"]}"/>'
+        return c03.attr_decl("x", d0, variant) + c03.attr_decl("y", dT, variant) + wild
+    return (f'<xs:schema xmlns:xs="{cm.XS}" targetNamespace="urn:T" xmlns:t="urn:T" '
+            f'elementFormDefault="qualified"><xs:import namespace="urn:A"/>'
+            f'<xs:attribute name="y" type="xs:integer"/>'
+            f'<xs:complexType name="B">{body(rec["bd0"], rec["bdT"], rec["bw"])}</xs:complexType>'
+            f'<xs:complexType name="R"><xs:complexContent><xs:restriction base="t:B">'
+            f'{body(rec["rd0"], rec["rdT"], rec["rw"])}</xs:restriction></xs:complexContent></xs:complexType>'
+            f'<xs:element name="b" type="t:B"/><xs:element name="r" type="t:R"/></xs:schema>')
+
+
+def judge_attr(job):
+    from checks import c03
+    rec, idx = job
+    out = []
+    xsd = attr_restriction_xsd(rec, idx % 2)
+    for ver in ("1.0", "1.1"):
+        schema, err = c03.build(ver, xsd)
+        if schema is None:
+            out.append((ver, "refused", None))
+            continue
+        conf = None
+        if not rec["included"]:
+            # the property, literally, on the implementation: some attribute set of the spec's counterexample
+            # set must be valid for the derived type and invalid for the base type
+            conf = {"confirmed": None, "checked": 0}
+            for inst in [rec["witness"]] + [i for i in rec["bad"] if i != rec["witness"]]:
+                doc = c03.instance_xml(inst)
+                try:
+                    rv = schema.is_valid(doc.replace("<t:e ", "<t:r "))
+                    bv = schema.is_valid(doc.replace("<t:e ", "<t:b "))
+                except Exception as e:      # noqa: BLE001
+                    conf["error"] = f"{type(e).__name__}: {e}"[:160]
+                    break
+                conf["checked"] += 1
+                if rv and not bv:
+                    conf["confirmed"] = inst
+                    break
+        out.append((ver, "accepted", conf))
+    return out
+
+
+def attr_phase(ctx: Ctx, witnesses, collect):
+    thorough = ctx.tier == "thorough"
+    wild = ('{NoWild} \\cup {[c |-> c, pc |-> p] : c \\in {"any", "other", "tns"}, p \\in {"strict", "lax", "skip"}}'
+            if thorough else
+            '{NoWild} \\cup {[c |-> c, pc |-> p] : c \\in {"any", "other"}, p \\in {"strict", "skip"}}')
+    declt = ('{NoDecl, [use |-> "optional", vc |-> "none"], [use |-> "required", vc |-> "none"]}' if thorough
+             else '{NoDecl, [use |-> "optional", vc |-> "none"]}')
+    files = {"MC_AR.tla": "---- MODULE MC_AR ----\nEXTENDS AttrRestriction\nMCWild == " + wild +
+             "\nMCDeclT == " + declt + "\n====\n"}
+    cfg = ("SPECIFICATION RSpecA\nCONSTRAINT REmit\nCHECK_DEADLOCK FALSE\nCONSTANTS\n Small = TRUE\n"
+           " WildSet <- MCWild\n DeclTSet <- MCDeclT\n")
+    r = ctx.tlc("MC_AR", cfg_text=cfg, files=files, tag="attr-restriction", workers=16)
+    recs = r.json_records()
+    jobs = [(rec, i) for i, rec in enumerate(recs)]
+    st = collections.Counter()
+    st["pairs"] = len(recs)
+    st["pairs_not_included"] = sum(1 for x in recs if not x["included"])
+    n = 0
+    for (rec, i), res in zip(jobs, ctx.pmap(judge_attr, jobs)):
+        for ver, outcome, conf in res:
+            n += 1
+            st[f"{ver}_{outcome}_{'included' if rec['included'] else 'not_included'}"] += 1
+            if outcome == "accepted" and not rec["included"] and not conf.get("confirmed") and "error" not in conf:
+                st[f"{ver}_accepted_not_included_but_not_demonstrable_on_the_implementation"] += 1
+            elif outcome == "accepted" and not rec["included"]:
+                key = f"{ver}|" + json.dumps([rec[k] for k in ("bd0", "bdT", "bw", "rd0", "rdT", "rw")], sort_keys=True)
+                if collect is not None:
+                    collect.setdefault("Attr", []).append(key)
+                structural = (rec["bd0"]["use"] == "none" and rec["bw"]["pc"] == "strict"
+                              and rec["bw"]["c"] in ("any", "local") and rec["rd0"]["use"] in ("optional", "required")
+                              and (conf.get("confirmed") or {}).get("n0", "absent") != "absent")
+                finding = "F-C14-attr" if structural else None
+                ctx.report({"scope": "Attr", "ver": ver, "rec": rec, "implementation_on_witness": conf,
+                            "xsd": attr_restriction_xsd(rec, i % 2)},
+                           f"{ver}: attribute restriction accepted: base x={rec['bd0']} y={rec['bdT']} "
+                           f"wildcard={rec['bw']} -> derived x={rec['rd0']} y={rec['rdT']} wildcard={rec['rw']}, but "
+                           f"the attribute set {conf.get('confirmed') or rec['witness']} is valid for the derived type "
+                           f"only (implementation: {conf})", finding=finding)
+    ctx.extra.setdefault("per_scope", {})["Attr"] = dict(st)
+    some = [x for x in recs if not x["included"]][:1] + recs[:1]
+    for x in some:
+        ctx.sample({"scope": "Attr", "base": [x["bd0"], x["bdT"], x["bw"]], "derived": [x["rd0"], x["rdT"], x["rw"]],
+                    "included": x["included"], "witness": x["witness"]}, 12)
+    return n
+
+
 def load_witnesses():
     if not WITNESS_FILE.exists():
         return {}
@@ -134,18 +228,23 @@ def run(ctx: Ctx, collect=None):
             ctx.sample({"base": cm.model_str(p["b"]), "derived": cm.model_str(p["d"]),
                         "labels": p["labels"],
                         "witness_in_derived_not_base": "".join(p["witness"]) if p["witness"] else None}, 9)
+    ctx.extra["per_scope"] = per_scope
+    total += attr_phase(ctx, witnesses, collect)
     ctx.impl_replays = ctx.evaluations = ctx.nontrivial = total
     ctx.exhaustive = True
-    ctx.extra["per_scope"] = per_scope
     ctx.rule = ("every (base, derived) pair produced by the spec's edit operators (occurrence "
                 "tightening/widening of the group or a child, drop/add/rename/swap a child, choose a "
                 "branch, change the group kind) over the base family x schema class; a case is one "
-                "strict build of the restriction; only ACCEPTED restrictions are judged")
+                "strict build of the restriction; only ACCEPTED restrictions are judged; plus every (base, derived) "
+                "pair of attribute uses and attribute wildcards of spec/AttrRestriction.tla (uses of x: 7 x 7, "
+                "of t:y and the wildcards bounded per tier), inclusion decided over the whole attribute-set space")
     ctx.assumptions += [
+        "attribute restrictions: a pair the spec calls not included is reported only if the implementation itself "
+        "validates one of the spec's counterexample attribute sets for the derived type and not for the base type "
+        "(where F-C03-a makes the implementation stricter than the spec the pair is counted as not demonstrable)",
         "inclusion is decided exactly on the product automaton (no word-length bound)",
         "rejected-but-included restrictions (incompleteness) are counted in per_scope, not judged",
-        "content models only; facet and attribute restrictions are covered by C02/C03 machinery "
-        "when built (see DESIGN.md)"]
+        "content models and attribute uses / wildcards; facet restrictions are not judged here"]
 
 
 def replay(ctx: Ctx, case):
